@@ -1086,7 +1086,11 @@ fn combine_all_ex(c: &mut Ctx, copies: &[Pczt], label: &str, made: &Made, lenien
                         }
                         continue;
                     }
-                    // the result must imply the identifier every input implies
+                    // the result must imply the identifier every input implies (all accepted
+                    // results equal the union, so the first one stands for all of them)
+                    if first_ok.is_some() {
+                        continue;
+                    }
                     if let (Some(t0), Ok(tr)) = (known.first(), txid_of(&got)) {
                         if tr != *t0 {
                             let class = format!("combine:result-implies-different-txid:{label}");
@@ -1374,7 +1378,9 @@ fn field_pairs(c: &mut Ctx, base: &Pczt, rng: &mut ChaCha20Rng, made: &Made, how
             // a third copy that agrees with X
             set.push(set[0].clone());
         }
-        combine_all_ex(c, &set, pr.label, made, pr.lenient);
+        // absent-vs-present copies may describe the same transaction (when another field decides
+        // the effect): refusing them is tolerated, combining copies whose txids differ is not
+        combine_all_ex(c, &set, pr.label, made, pr.lenient || pr.label.contains("absent-vs"));
     }
 }
 
